@@ -54,17 +54,26 @@ def _env(extra=None):
     return e
 
 
-def _write_tree(root, names, tree, secs):
+def _write_tree(root, names, tree, secs, links=()):
+    """links: indices whose entry is a SYMBOLIC LINK to a regular file kept outside the tree (size and mtime are the
+    target's - the quick check and the copy both follow the link)"""
     shutil.rmtree(root, ignore_errors=True)
     os.makedirs(root)
-    for name, m in zip(names, tree):
+    side = root + ".linktargets"
+    shutil.rmtree(side, ignore_errors=True)
+    for i, (name, m) in enumerate(zip(names, tree)):
         if m:
             p = os.path.join(root, name)
             os.makedirs(os.path.dirname(p), exist_ok=True)
-            with open(p, "wb") as f:
+            real = p
+            if i in links:
+                os.makedirs(side, exist_ok=True)
+                real = os.path.join(side, f"t{i}")
+                os.symlink(real, p)
+            with open(real, "wb") as f:
                 f.write(content_bytes(m[0]))
             ns = secs[m[1] - 1] * 10**9 + NS[m[2]]
-            os.utime(p, ns=(ns, ns))
+            os.utime(real, ns=(ns, ns))
 
 
 def _extra_dirs(root, dirs):
@@ -135,7 +144,7 @@ def _cmd(case, dry):
 def run_case(case):
     names = case["names"]
     secs = case["secs"]
-    _write_tree(_W["src"], names, case["src"], secs)
+    _write_tree(_W["src"], names, case["src"], secs, links=case.get("links", ()))
     _write_tree(_W["dst"], names, case["dst"], secs)
     _extra_dirs(_W["dst"], case.get("dst_dirs", []))
     env = _env(case.get("env"))
@@ -285,5 +294,11 @@ def random_cases(n, seed, dirs=("local", "push", "pull")):
                 "dry": rng.random() < 0.2, "dir": rng.choice(dirs), "jobs": rng.choice([1, 2, 8]), "verbose": rng.random() < 0.3}
         if clash:
             case["induced"] = "clash"
+        elif case["dir"] != "pull" and rng.random() < 0.12:
+            # a source entry that is a symlink to a regular file (the remote listing `find -type f` does not show links,
+            # so not for pull)
+            present = [i for i, m in enumerate(src) if m]
+            if present:
+                case["links"] = [rng.choice(present)]
         out.append(case)
     return out
